@@ -1,0 +1,12 @@
+//go:build verif
+
+// Contracts for govc (contract-based deductive verification); comment-only, compiled only with -tags verif.
+package sync
+
+// ---- fail-stop (C14): the halted flag is cleared only when the reorg really removed processed blocks
+//@ func UnhaltIfAffectedRows
+//@   props C14
+//@   inline
+//@   requires halted != nil && haltedReason != nil && mu != nil
+//@   modifies *halted, *haltedReason
+//@   ensures[cleared-only-if-rows-were-removed] *halted == (old(*halted) && rowsAffected <= 0)
